@@ -135,9 +135,10 @@ class C11(Check):
             perts.append({"hashseed": 0, "sched": {"seed": rng.randrange(1 << 30), "policy": "eager-start", "line_p": 0.0},
                           "enum_seed": None, "heap_shift": 0, "workers": 2, "order_seed": None})
         exp = {"kind": kind, "world_spec": {"files": files}, "include": include, "perturbations": perts}
-        if kind == "ff":
+        if kind in ("ff", "sast-default", "wildcard"):
+            # one-file sub-world (with only that file's findings in SAST modes): run(D)|f == run({f})|f
             py = [f["path"] for f in files if "snippets" in f]
-            if py:
+            if py and len(files) > 1:
                 exp["sibling"] = rng.choice(py)
         return exp
 
@@ -167,6 +168,16 @@ class C11(Check):
             specs.append({"name": "sibling", "world": world1, "argv": argv, "hashseed": 0,
                           "sched": {"seed": 0, "policy": "fifo", "line_p": 0.0}, "enum_seed": None})
         outs = ctx.run_many(specs)
+        p0 = exp["perturbations"][0]
+        for p in exp["perturbations"][1:]:
+            for dim, name in (("hashseed", "hashseed"), ("enum_seed", "enum-permute"), ("heap_shift", "heap-shift"),
+                              ("workers", "worker-count"), ("order_seed", "creation-order")):
+                if p.get(dim) != p0.get(dim):
+                    ctx.note_fault(name)
+            if p["sched"] != p0["sched"]:
+                ctx.note_fault("schedule:" + p["sched"].get("policy", "?"))
+        if exp.get("sibling"):
+            ctx.note_fault("sibling-subset")
         if exp.get("sibling"):
             sib = outs.pop()
         return {"perts": outs, "sibling": sib}
